@@ -259,7 +259,7 @@ def run(ctx):
 
     # native build of /repo's CURRENT tproxy.c (unmodified; #included by the driver)
     cdir = os.path.join(VERIF, "harness", "c")
-    cdrv = os.path.join(CACHE, "bin", "c02_route_native")
+    cdrv = os.path.join(ctx.bindir, "c02_route_native")
     os.makedirs(os.path.dirname(cdrv), exist_ok=True)
     if os.path.exists(cdrv):
         os.unlink(cdrv)
